@@ -574,6 +574,43 @@ Proof.
       * fold (chunks 59 (skipn 57 p)). lia.
 Qed.
 
+(** a channel that still holds an unfinished (abandoned) message [s]: a new multi-packet message on that channel
+    replaces it - the receiver answers nothing until the last packet, the whole new message on the last packet, and
+    ends idle; a new single-packet message is delivered at once and leaves the unfinished one where it was
+    (source: "in the unlikely event this channel was reused and there was an unfinished message, just drop it") *)
+Theorem restart_stream ch cmd p s : sendable ch cmd p -> (57 < length p)%nat ->
+  run1 s (map fst (labelled ch cmd p)) = Some (None, map snd (labelled ch cmd p)).
+Proof.
+  intros (Hch & Hcmd & Hlen) L. unfold MAX_ACCEPTED in Hlen.
+  pose proof (accepted_conts p Hlen) as Hn.
+  rewrite labelled_fst, labelled_snd. unfold spec_packets at 1. cbn [run1].
+  unfold step1 at 1. rewrite parse_init_packet by (try assumption; lia).
+  assert (Hfl : length (firstn 57 p) = 57%nat) by (rewrite firstn_length; lia).
+  rewrite Hfl. replace (length p =? 57)%nat with false by lia.
+  unfold chunks. rewrite (run1_conts ch cmd Hch (length (skipn 57 p)) (skipn 57 p) 0 (firstn 57 p) (length p)).
+  - rewrite firstn_skipn. unfold spec_packets, chunks. cbn [length]. rewrite map_length, number_from_length.
+    rewrite N.add_0_l.
+    assert (Hcs : chunks_fuel (length (skipn 57 p)) 59 (skipn 57 p) <> []).
+    { intros E. apply chunks_fuel_nil in E; [|lia]. apply skipn_nil_len in E. lia. }
+    destruct (chunks_fuel (length (skipn 57 p)) 59 (skipn 57 p)) as [|c0 cs0]; [congruence|].
+    cbn [length Nat.sub]. rewrite !Nat.sub_0_r. reflexivity.
+  - lia.
+  - rewrite skipn_nil_len. lia.
+  - rewrite Hfl, skipn_length. lia.
+  - fold (chunks 59 (skipn 57 p)). lia.
+Qed.
+
+Theorem single_packet_keeps_state ch cmd p s : sendable ch cmd p -> (length p <= 57)%nat ->
+  run1 s (map fst (labelled ch cmd p)) = Some (s, [Some (Msg ch cmd 0 (length p) p)]).
+Proof.
+  intros (Hch & Hcmd & Hlen) L. unfold MAX_ACCEPTED in Hlen.
+  rewrite labelled_fst. unfold spec_packets.
+  assert (E : skipn 57 p = []) by (apply skipn_nil_len; lia).
+  rewrite E. unfold chunks. cbn [chunks_fuel length number_from map run1].
+  unfold step1. rewrite parse_init_packet by (try assumption; lia).
+  rewrite (firstn_all2 (n:=57) p) by lia. rewrite Nat.eqb_refl. reflexivity.
+Qed.
+
 (** *** Any number of channels, any interleaving *)
 
 Definition stream := (N * N * bytes)%type.
